@@ -171,6 +171,9 @@ func mkPtr(name string) *int {
 func VH_c10_ptr() {
 	o := ord.Ptr(lazy.Done(ord.Given[int]()))
 	a, b := mkPtr("a"), mkPtr("b")
+	if zz.Bool("same.pointer") {
+		b = a
+	}
 	pairLaws(o, a, b, "Ptr")
 	want := (a == nil && b != nil) || (a != nil && b != nil && *a < *b)
 	zz.Assert(o.Less(a, b) == want, "Ptr: nil first, then by target")
@@ -379,4 +382,28 @@ func VH_c10_then_comparing_wide() {
 	zz.Assert(o.Less(a, b) == want, l+": later orders only break ties")
 	zz.Assert(o.Eqv(a, b) == eqv, l+": Eqv needs all keys equal")
 	pairLaws(o, a, b, l)
+}
+
+
+// sequences that are views of one backing array (prefix vs longer prefix, shifted windows)
+func VH_c10_seq_aliased_views() {
+	base := zz.SliceInt("base", 3, 0, 0)
+	n := len(base)
+	i, j := zz.Choice("i", n+1), zz.Choice("j", n+1)
+	ob := 0
+	if zz.Bool("offset") && n > 0 {
+		ob = 1
+		if j < ob {
+			j = ob
+		}
+	}
+	a, b := fp.Seq[int](base[:i]), fp.Seq[int](base[ob:j])
+	o := ord.Seq(ord.Given[int]())
+	pairLaws(o, a, b, "Seq (views of one array)")
+	k := 0
+	for k < len(a) && k < len(b) && a[k] == b[k] {
+		k++
+	}
+	want := (k == len(a) && k < len(b)) || (k < len(a) && k < len(b) && a[k] < b[k])
+	zz.Assert(o.Less(a, b) == want, "Seq (views of one array): lexicographic")
 }
